@@ -16,7 +16,8 @@ Print Assumptions C15_klidx_inv_initial.
 (* Each single rfc6902 operation that the RFC applies to the document denoted by a tree satisfying klidx_inv succeeds,
    yields the RFC result, and re-establishes klidx_inv.
    The full statement (without `no_root_alias`) is false of the model and of the code - C15_patch_single_op_rfc_refuted:
-   the library reads the pointer "/" (one empty segment) as the root, and ignores move/copy onto the root. *)
+   the library reads the pointer "/" (one empty segment) as the root.  (Until 22df63c it also ignored move / copy onto the
+   root; now the value at `from` becomes the document: C15_root_move_copy, the old code: C15_root_move_copy_ignored_refuted.) *)
 Theorem C15_patch_single_op_rfc_partial : forall fo t o d',
   rfc_kind (p_op o) -> klidx_inv t -> op_good o -> no_root_alias (sop_of o) ->
   rfc_op strict (f_eq fo) (doc_val t) (sop_of o) = Some d' ->
@@ -182,7 +183,7 @@ Proof.
   split; [|split; [|split; [apply of_val_inv1 | split; reflexivity]]].
   - assert (A : rfc_kind (p_op ex_rm0) /\ op_good ex_rm0) by (split; [right; left; reflexivity | intros v H; discriminate]).
     constructor; [exact A | constructor; [exact A | constructor]].
-  - assert (B : no_root_alias (sop_of ex_rm0)) by (split; [discriminate | intros [H|H]; discriminate]).
+  - assert (B : no_root_alias (sop_of ex_rm0)) by discriminate.
     constructor; [exact B | constructor; [exact B | constructor]].
 Qed.
 
@@ -244,7 +245,7 @@ Example C15_ex_copy_deep :
   doc_val (snd (apply_op ex_fo t o)) = Some (JObj [([115;114;99], sv); ([100;115;116], sv)]).
 Proof.
   cbv zeta. split; [apply of_val_inv1|]. split; [intros v H; discriminate|].
-  split; [split; [discriminate | intros _; discriminate]|]. repeat split; reflexivity.
+  split; [discriminate|]. repeat split; reflexivity.
 Qed.
 
 (* ================================================================== the write-back step of the binary-form API modes
@@ -377,9 +378,10 @@ Theorem C15_patch_program_rfc : forall fo l t d',
 Proof. exact patch_program_rfc_all. Qed.
 Print Assumptions C15_patch_program_rfc.
 
-(* "... and an error otherwise": since eca2cba array indices are read as rfc6901 reads them, and the library's reading differs from
-   the RFC only at the root and for a move into one's own child.  For every program of operations that stay clear of these
-   (`rfc_shaped`): the RFC result when the RFC defines one, AN ERROR OTHERWISE - both directions against the RFC itself. *)
+(* "... and an error otherwise": since eca2cba array indices are read as rfc6901 reads them, since 22df63c move / copy onto the root
+   "" are the RFC's, and the library's reading differs from the RFC only for "/" as the root, for a move into one's own child and
+   for the removed document moved / copied onto itself.  For every program of operations that stay clear of these (`rfc_shaped`):
+   the RFC result when the RFC defines one, AN ERROR OTHERWISE - both directions against the RFC itself. *)
 Theorem C15_rfc_error_otherwise : forall fo l t, ops_ok l -> Forall rfc_shaped (map sop_of l) -> klidx_inv t ->
   match rfc_program strict (f_eq fo) (doc_val t) (map sop_of l) with
   | Some d' => fst (apply_ops fo t l) = RcOk /\ doc_val (snd (apply_ops fo t l)) = d' /\ klidx_inv (snd (apply_ops fo t l))
@@ -398,22 +400,48 @@ Example C15_ex_rfc_error_otherwise :
      fst (apply_op ex_fo ex_doc (op k seg v)) <> RcOk /\ snd (apply_op ex_fo ex_doc (op k seg v)) = ex_doc).
 Proof.
   cbv zeta. split; [apply of_val_inv1|]. intros k seg v I. cbn [In] in I.
-  repeat (destruct I as [I|I]; [inversion I; subst; split; [split; [split; [discriminate | intros [E|E]; discriminate] | intros E; discriminate]|];
+  repeat (destruct I as [I|I]; [inversion I; subst; split; [split; [discriminate | split; [intros E; discriminate | intros [E|E]; discriminate]]|];
                                 split; [reflexivity|]; split; [discriminate | reflexivity]|]).
   contradiction.
 Qed.
 
-(* without `rfc_shaped` it stays false at the root: {"a":1} with copy from /zz (missing) onto the root "" - rfc6902: an error; the
-   library ignores move / copy / swap / increment onto the root and answers 0 (kept as its reading, notes/jpatch.md) *)
+(* without `rfc_shaped` it stays false for "/" read as the root: {"a":1} with remove "/" - rfc6902: there is no member named "",
+   an error; the library removes the document and answers 0 (kept as its reading of pointers, notes/jpatch.md).  Move / copy onto
+   the root "", the witness until 22df63c, are the RFC's now: C15_root_move_copy. *)
 Theorem C15_rfc_error_otherwise_refuted : exists fo t o,
   rfc_kind (p_op o) /\ klidx_inv t /\ op_good o /\
   rfc_op strict (f_eq fo) (doc_val t) (sop_of o) = None /\ fst (apply_op fo t o) = RcOk.
 Proof.
-  exists ex_fo, (of_val 0 [] (JObj [([97], JI64 1)])), {| p_op := OCopy; p_path := []; p_from := Some [[122; 122]]; p_val := None |}.
-  split; [right; right; right; left; reflexivity|]. split; [apply of_val_inv1|]. split; [intros v H; discriminate|].
+  exists ex_fo, (of_val 0 [] (JObj [([97], JI64 1)])), {| p_op := ORemove; p_path := [[]]; p_from := None; p_val := None |}.
+  split; [right; left; reflexivity|]. split; [apply of_val_inv1|]. split; [intros v H; discriminate|].
   split; reflexivity.
 Qed.
 Print Assumptions C15_rfc_error_otherwise_refuted.
+
+(* move / copy onto the root "" (22df63c): the value at `from` becomes the document, as rfc6902 4.4 / 4.5 with 4.1 ("the specified
+   value becomes the entire content of the target document") say; a missing `from` location is JBL_ERROR_PATH_NOTFOUND and the
+   tree is untouched.  For every document and every `from`. *)
+Theorem C15_root_move_copy : forall fo t o f, klidx_inv t -> (p_op o = OMove \/ p_op o = OCopy) -> p_path o = [] -> p_from o = Some f ->
+  n_ty t <> TNone ->
+  match jget strict (val t) f with
+  | Some x => fst (apply_op fo t o) = RcOk /\ doc_val (snd (apply_op fo t o)) = Some x /\ klidx_inv (snd (apply_op fo t o))
+  | None => fst (apply_op fo t o) <> RcOk /\ snd (apply_op fo t o) = t
+  end.
+Proof. exact root_move_copy. Qed.
+Print Assumptions C15_root_move_copy.
+
+(* the code before 22df63c (apply_op_v true) answered 0 and left the document as it was: {"a":{"b":1}} with copy /a -> "" stayed
+   {"a":{"b":1}} (rfc6902: {"b":1}), and copy from the missing /zz onto the root answered 0 as well *)
+Theorem C15_root_move_copy_ignored_refuted :
+  let t := of_val 0 [] (JObj [([97], JObj [([98], JI64 1)])]) in
+  let o := {| p_op := OCopy; p_path := []; p_from := Some [[97]]; p_val := None |} in
+  let o2 := {| p_op := OMove; p_path := []; p_from := Some [[122; 122]]; p_val := None |} in
+  klidx_inv t /\ rfc_op strict Z.eqb (doc_val t) (sop_of o) = Some (Some (JObj [([98], JI64 1)])) /\
+  apply_op_v true ex_fo t o = (RcOk, t) /\
+  fst (apply_op ex_fo t o) = RcOk /\ doc_val (snd (apply_op ex_fo t o)) = Some (JObj [([98], JI64 1)]) /\
+  rfc_op strict Z.eqb (doc_val t) (sop_of o2) = None /\ apply_op_v true ex_fo t o2 = (RcOk, t) /\ apply_op ex_fo t o2 = (RcNotFound, t).
+Proof. cbv zeta. split; [apply of_val_inv1|]. repeat split; reflexivity. Qed.
+Print Assumptions C15_root_move_copy_ignored_refuted.
 
 (* the invariant holds after every program of any operations, successful or not *)
 Theorem C15_klidx_inv_all_ops : forall fo l t, Forall op_good l -> klidx_inv t -> klidx_inv (snd (apply_ops fo t l)).
@@ -476,26 +504,15 @@ Proof. exact failed_program_prefix. Qed.
 Print Assumptions C15_failed_program_is_prefix.
 
 (* ================================================================== the patch decoder (_jbl_create_patch: jbn_patch_auto,
-   jbl_patch_from_json) as a grammar, for EVERY patch document the parsers can build.
-   Accepted = every element is an object whose members are acceptable: a member whose name is a PREFIX of "op" (tested first),
-   "value", "path", "from" (in this order; the empty name is a prefix of "op") takes that role; an "op" must be a string that is a
-   prefix of one of the nine operation names (first match in the order add, remove, replace, copy, move, test, increment,
-   add_create, swap), "path" / "from" must be strings; other members are ignored; the last member of a role wins.  Rejected:
-   JBL_ERROR_PATCH_INVALID or JBL_ERROR_PATCH_INVALID_OP.  The decoded operation is a function of the members alone (`decoded`):
-   a field without a member is 0 / NULL, whatever memory the array was carved from (the memset of _jbl_create_patch). *)
-Theorem C15_decoder_grammar : forall p, klidx_inv p ->
-  match create_patch p with
-  | inr ops => Forall opobj_ok (n_ch p) /\ ops = map decoded (n_ch p)
-  | inl e => ~ Forall opobj_ok (n_ch p) /\ (e = RcPatchInvalid \/ e = RcBadOp)
-  end.
-Proof. exact create_patch_grammar_inv. Qed.
-Print Assumptions C15_decoder_grammar.
-
-(* on operation objects written canonically (names exact or no prefix of a known name) the decoder is the rfc6902 reading *)
-Theorem C15_decoder_exact_on_canonical : forall p,
-  Forall (fun n => n_ty n = TObj /\ Forall canon_member (n_ch n)) (n_ch p) -> create_patch p = decode_ops_exact (n_ch p).
-Proof. exact create_patch_exact_on_canonical. Qed.
-Print Assumptions C15_decoder_exact_on_canonical.
+   jbl_patch_from_json), for EVERY patch document the parsers can build.  The decoded operation is a function of the members
+   alone: a field without a member is 0 / NULL, whatever memory the array was carved from (the memset of _jbl_create_patch). *)
+(* the decoder of the library as it is (63ac2d6): for EVERY patch document - an element that is no object makes the document
+   JBL_ERROR_PATCH_INVALID before anything is decoded; otherwise the exact rfc6902 reading: "op", "path", "from", "value" by their
+   full names, every other member ignored (rfc6902 4), operation names exact (plus the three extension names) *)
+Theorem C15_decoder_exact : forall p,
+  create_patch p = if forallb (fun n => ty_eqb (n_ty n) TObj) (n_ch p) then decode_ops_exact (n_ch p) else inl RcPatchInvalid.
+Proof. exact create_patch_exact. Qed.
+Print Assumptions C15_decoder_exact.
 
 Definition ex_patch_doc (v : jval) : node := of_val 0 [] v.
 Definition str (s : list Z) := JStr s.
@@ -504,31 +521,36 @@ Example C15_ex_decoder_canonical :
   let p := ex_patch_doc (JArr [JObj [(lit_op, str [109;111;118;101]); (lit_from, str [47;97]); (lit_path, str [47;98]);
                                      ([110;111;116;101], JI64 1)]]) in
   klidx_inv p /\ Forall (fun n => n_ty n = TObj /\ Forall canon_member (n_ch n)) (n_ch p) /\
-  create_patch p = inr [{| r_op := OMove; r_path := Some [47;98]; r_from := Some [47;97]; r_val := None |}].
+  create_patch p = inr [{| r_op := OMove; r_path := Some [47;98]; r_from := Some [47;97]; r_val := None |}] /\
+  create_patch_prefix p = create_patch p.
 Proof.
-  cbv zeta. split; [apply of_val_inv1|]. split; [|reflexivity].
+  cbv zeta. split; [apply of_val_inv1|]. split; [|split; reflexivity].
   constructor; [|constructor]. split; [reflexivity|].
   repeat (constructor; [split; [reflexivity | split; [reflexivity | intros T B; vm_compute in T, B; first [discriminate | reflexivity]]]|]). constructor.
 Qed.
 
-(* "accepts exactly the rfc6902 operation objects (plus the extensions)" is FALSE of the model and of the library:
-   {"o":"re","p":"/a"} is decoded as remove /a (rfc6902: no "op" member, no "path" member);
-   {"path":"/a","value":1} (no "op") is accepted, operation code 0, applied like add;
-   {"op":"add","path":"/a","value":1,"p":"/b"}: the member "p" (rfc6902 4: MUST be ignored) replaces the path: add /b.
-   Replayed on the library through jbn_patch_auto (mode ta) - see notes/jpatch.md. *)
+(* "accepts exactly the rfc6902 operation objects (plus the extensions)" was FALSE of the decoder before 63ac2d6
+   (create_patch_prefix: strncmp over the length of the member's name / of the value, so every prefix matched):
+   {"o":"re","p":"/a"} was decoded as remove /a (rfc6902: no "op" member, no "path" member);
+   {"op":"add","path":"/a","value":1,"p":"/b"}: the member "p" (rfc6902 4: MUST be ignored) replaced the path: add /b.
+   The decoder the library has now reads both as rfc6902 does.  Still accepted (by both, recorded in notes/jpatch.md as outside the
+   statement): {"path":"/a","value":1} without "op", operation code 0, applied like add. *)
 Theorem C15_decoder_accepts_more_refuted :
   let p1 := ex_patch_doc (JArr [JObj [([111], str [114;101]); ([112], str [47;97])]]) in
   let p2 := ex_patch_doc (JArr [JObj [(lit_path, str [47;97]); (lit_value, JI64 1)]]) in
   let p3 := ex_patch_doc (JArr [JObj [(lit_op, str [97;100;100]); (lit_path, str [47;97]); (lit_value, JI64 1); ([112], str [47;98])]]) in
   klidx_inv p1 /\ klidx_inv p2 /\ klidx_inv p3 /\
-  create_patch p1 = inr [{| r_op := ORemove; r_path := Some [47;97]; r_from := None; r_val := None |}] /\
+  create_patch_prefix p1 = inr [{| r_op := ORemove; r_path := Some [47;97]; r_from := None; r_val := None |}] /\
   decode_ops_exact (n_ch p1) = inr [empty_rawop] /\
-  (exists v, create_patch p2 = inr [{| r_op := ONone; r_path := Some [47;97]; r_from := None; r_val := Some v |}]) /\
-  (exists v, create_patch p3 = inr [{| r_op := OAdd; r_path := Some [47;98]; r_from := None; r_val := Some v |}] /\
-             decode_ops_exact (n_ch p3) = inr [{| r_op := OAdd; r_path := Some [47;97]; r_from := None; r_val := Some v |}]).
+  (exists v, create_patch_prefix p2 = inr [{| r_op := ONone; r_path := Some [47;97]; r_from := None; r_val := Some v |}]) /\
+  (exists v, create_patch_prefix p3 = inr [{| r_op := OAdd; r_path := Some [47;98]; r_from := None; r_val := Some v |}] /\
+             decode_ops_exact (n_ch p3) = inr [{| r_op := OAdd; r_path := Some [47;97]; r_from := None; r_val := Some v |}] /\
+             create_patch p3 = decode_ops_exact (n_ch p3)) /\
+  create_patch p1 = inr [empty_rawop].
 Proof.
   cbv zeta. split; [apply of_val_inv1|]. split; [apply of_val_inv1|]. split; [apply of_val_inv1|].
-  split; [reflexivity|]. split; [reflexivity|]. split; [eexists; reflexivity|]. eexists. split; reflexivity.
+  split; [reflexivity|]. split; [reflexivity|]. split; [eexists; reflexivity|]. split; [|reflexivity].
+  eexists. split; [reflexivity | split; reflexivity].
 Qed.
 Print Assumptions C15_decoder_accepts_more_refuted.
 
@@ -565,16 +587,23 @@ Theorem C15_increment_wraps_refuted :
 Proof. split; reflexivity. Qed.
 Print Assumptions C15_increment_wraps_refuted.
 
-(* "Swap values of two nodes" when one location contains the other: no exchange exists; the library answers 0 and the OUTER location
-   takes the inner value, the rest of the outer value is gone: {"a":{"b":{"x":1},"k":2}} with swap /a <-> /a/b is {"a":{"x":1}}
-   (replayed on the library; the node holding the old outer value - it lists itself among its children - is unreachable, the result
-   is a tree).  Covered exactly by lib_swap / C15_patch_any_op_exact; recorded as a leniency, see notes/jpatch.md. *)
+(* "Swap values of two nodes" when one location contains the other: no exchange exists.  Since da6f72b the library refuses it
+   (JBL_ERROR_PATCH_INVALID, the tree untouched) - for every document and every such pair of pointers: *)
+Theorem C15_swap_nested_refused : forall fo t o f, p_op o = OSwap -> p_from o = Some f -> f <> [] -> is_root (p_path o) = false ->
+  seg_nested f (p_path o) = true -> apply_op fo t o = (RcPatchInvalid, t).
+Proof. exact swap_nested_refused. Qed.
+Print Assumptions C15_swap_nested_refused.
+
+(* the code before da6f72b (apply_op_v true) answered 0 and the OUTER location took the inner value, the rest of the outer value
+   was gone: {"a":{"b":{"x":1},"k":2}} with swap /a <-> /a/b was {"a":{"x":1}} (replayed on the library at 0c2e1d6; the node
+   holding the old outer value - it listed itself among its children - was unreachable). *)
 Theorem C15_swap_nested_refuted : exists fo t o f,
   klidx_inv t /\ p_op o = OSwap /\ p_from o = Some f /\
   jget strict (val t) f <> None /\ jget strict (val t) (p_path o) <> None /\ seg_prefix f (p_path o) = true /\
-  fst (apply_op fo t o) = RcOk /\
+  fst (apply_op_v true fo t o) = RcOk /\
   doc_val t = Some (JObj [([97], JObj [([98], JObj [([120], JI64 1)]); ([107], JI64 2)])]) /\
-  doc_val (snd (apply_op fo t o)) = Some (JObj [([97], JObj [([120], JI64 1)])]).
+  doc_val (snd (apply_op_v true fo t o)) = Some (JObj [([97], JObj [([120], JI64 1)])]) /\
+  apply_op fo t o = (RcPatchInvalid, t).
 Proof.
   exists ex_fo, (of_val 0 [] (JObj [([97], JObj [([98], JObj [([120], JI64 1)]); ([107], JI64 2)])])),
          {| p_op := OSwap; p_path := [[97]; [98]]; p_from := Some [[97]]; p_val := None |}, [[97]].
@@ -625,7 +654,7 @@ Print Assumptions C15_parent_pointers_refuted.
 (* "the tree is a tree": for every document whose nodes are distinct and every list of operations OF ANY KIND whose operand values
    are distinct nodes (distinct from one another and from the document's: every parsed patch document), after the call -
    successful or not - no node is listed twice, and every node of the result is a node of the document, a node of an operand
-   value, or a node allocated by the call (jbn_clone for copy, created parents for add_create).  Nested swaps included. *)
+   value, or a node allocated by the call (jbn_clone for copy, created parents for add_create). *)
 Theorem C15_tree_is_a_tree : forall rp fo l next t,
   NoDup (i_ids t ++ flat_map vids l) -> (forall x, In x (i_ids t ++ flat_map vids l) -> x < next) ->
   NoDup (i_ids (snd (snd (i_apply_ops rp fo next t l)))) /\
@@ -634,17 +663,17 @@ Theorem C15_tree_is_a_tree : forall rp fo l next t,
 Proof. exact tree_is_a_tree. Qed.
 Print Assumptions C15_tree_is_a_tree.
 
-(* {"a":{"x":[1,2]},"b":{"y":{"z":1}}} with copy /a -> /c, move /b/y -> /a/x/0, add_create /q/r/s [1], swap /a <-> /a/x:
-   the hypotheses hold for the numbered document and operand, the result lists 15 distinct nodes *)
+(* {"a":{"x":[1,2]},"b":{"y":{"z":1}}} with copy /a -> /c, move /b/y -> /a/x/0, add_create /q/r/s [1], swap /c <-> /a/x:
+   the hypotheses hold for the numbered document and operand, the result lists 16 distinct nodes *)
 Example C15_ex_tree_is_a_tree :
   let t := snd (i_of_node 0 0 (of_val 0 [] (JObj [([97], JObj [([120], JArr [JI64 1; JI64 2])]); ([98], JObj [([121], JObj [([122], JI64 1)])])]))) in
   let v := snd (i_of_node 1000 0 (ex_vnode (JArr [JI64 1]))) in
   let l := [{| ip_op := OCopy; ip_path := [[99]]; ip_from := Some [[97]]; ip_val := None |};
             {| ip_op := OMove; ip_path := [[97]; [120]; [48]]; ip_from := Some [[98]; [121]]; ip_val := None |};
             {| ip_op := OAddCreate; ip_path := [[113]; [114]; [115]]; ip_from := None; ip_val := Some v |};
-            {| ip_op := OSwap; ip_path := [[97]; [120]]; ip_from := Some [[97]]; ip_val := None |}] in
+            {| ip_op := OSwap; ip_path := [[97]; [120]]; ip_from := Some [[99]]; ip_val := None |}] in
   NoDup (i_ids t ++ flat_map vids l) /\ (forall x, In x (i_ids t ++ flat_map vids l) -> x < 2000) /\
-  fst (snd (i_apply_ops false ex_fo 2000 t l)) = RcOk /\ length (i_ids (snd (snd (i_apply_ops false ex_fo 2000 t l)))) = 15%nat.
+  fst (snd (i_apply_ops false ex_fo 2000 t l)) = RcOk /\ length (i_ids (snd (snd (i_apply_ops false ex_fo 2000 t l)))) = 16%nat.
 Proof.
   cbv zeta. split; [|split; [|split; vm_compute; reflexivity]].
   - vm_compute. repeat (constructor; [cbn [In]; intuition discriminate|]). constructor.
